@@ -13,7 +13,8 @@ add("C04", "exploration",
     "under test; dumps are raw SQL decoded from the stored header bytes. Node stage spawns real nodes "
     "(network actors offline).",
     quick=[st("vh-node", args=["level=pipeline"]), st("vh-node", args=["level=node"])],
-    thorough=[st("vh-node", args=["level=pipeline"]), st("vh-node", args=["level=node"])],
+    # every Pipeline leaves its thread behind (see DESIGN 5.3, recorded): long runs are sharded
+    thorough=[st("vh-node", args=["level=pipeline", "shard=%d/12" % i]) for i in range(12)] + [st("vh-node", args=["level=node"])],
     design_ref="DESIGN.md §1 C04")
 
 add("C14", "exploration",
@@ -28,7 +29,7 @@ add("C14", "exploration",
     "Uses hooks H1/H2 (schedule point in Task::ready, cfg re-export of Pipeline/TaskTracker). A "
     "watchdog without the lost-submission state is inconclusive.",
     quick=[st("vh-node")],
-    thorough=[st("vh-node")],
+    thorough=[st("vh-node", args=["shard=%d/8" % i]) for i in range(8)],
     design_ref="DESIGN.md §1 C14")
 
 add("C15", "fault_enumeration",
